@@ -118,13 +118,15 @@ def _is_parser_fn(f):
 
 
 def failure_blocks(body):
+    from ..lib.cfgq import return_carriers
+    rc = return_carriers(body)
     out = set()
     for b in sorted(body.reachable()):
         t = body.term(b)
-        if t["k"] == "call" and is_callee(t, r"FromResidual.*::from_residual$") and t["dest"]["l"] == 0:
+        if t["k"] == "call" and is_callee(t, r"FromResidual.*::from_residual$") and t["dest"]["l"] in rc and "p" not in t["dest"]:
             out.add(b)
         for st in body.blocks[b]["stmts"]:
-            if st["k"] == "assign" and st["p"]["l"] == 0 and "p" not in st["p"] and st["rv"]["k"] == "aggregate" \
+            if st["k"] == "assign" and st["p"]["l"] in rc and "p" not in st["p"] and st["rv"]["k"] == "aggregate" \
                     and st["rv"].get("variant") in ("Err",):
                 out.add(b)
     return out
@@ -276,13 +278,16 @@ def _run_e1c(prog, rep):
                     t = body.term(b)
                     if t["k"] == "call":
                         fr = callee_fn(t)
-                        if fr is None:
+                        if not fr:
                             continue
                         tgt = fr.get("rdef") or fr["def"]
                         if tgt in mc:
                             consuming.add(b)
                 if consuming and not cycle_avoiding(body, header, blocks, consuming):
-                    stats["parser"] += 1
+                    # a loop that several callers share through a new helper stands for one loop per caller (floors count loops
+                    # as the pinned tree wrote them)
+                    uses = sum(1 for _c, h in (getattr(prog.lib, "inlined", []) + getattr(prog.bin, "inlined", [])) if h == f.id)
+                    stats["parser"] += max(1, uses)
                     rep.ok("E1.c", key, where, "every cycle passes a call that consumes at least one input character")
                 else:
                     rep.violation("E1.c", key, where, "parser loop with a cycle that consumes no input (possible non-termination)")
